@@ -16,6 +16,8 @@ namespace AIToolbox::Factored::MDP {
         // struct, but we can still check that all the nodes have been pushed.
         const auto & S = graph_.getS();
         const auto & A = graph_.getA();
+        if (!(discount_ > 0.0 && discount_ <= 1.0))
+            throw std::invalid_argument("Discount parameter must be in (0,1]");
         if (S.size() == 0)
             throw std::invalid_argument("Input DDN has empty state space in its DDNGraph");
         if (A.size() == 0)
